@@ -177,13 +177,13 @@ theorem rs_spec (c : TCtx) (n : Net) (m : Mem) :
     let r := restoreStableService c n m
     (r.writes = [] ∨ r.writes = ["unpinStable"]) ∧ r.net.canaryIng = n.canaryIng ∧ r.net.canarySvc = n.canarySvc ∧
     r.net.stableExists = n.stableExists ∧ r.err = false ∧
-    (c.hasRef = true → n.stableExists = true → r.net.stableSel.getD "" = "") := by
+    (c.hasRef = true → n.stableExists = true → c.hasRevKey = true → r.net.stableSel.getD "" = "") := by
   unfold restoreStableService
   by_cases h1 : c.hasRef = true
   · by_cases h2 : n.stableExists = true
     · by_cases h3 : n.stableSel.getD "" = ""
       · simp [h1, h2, h3]
-      · simp [h1, h2, h3]
+      · by_cases h4 : c.hasRevKey = true <;> simp [h1, h2, h3, h4]
     · simp [h1, h2]
   · simp [h1]
 
@@ -217,10 +217,12 @@ theorem before_shapes (x y z : List String)
     before (x ++ y ++ z) "unpinStable" "deleteCanaryIngress" = true := by
   rcases hx with rfl | rfl <;> rcases hy with rfl | rfl <;> rcases hz with rfl | rfl <;> decide
 
-/-- **C04 / C10** — `FinalisingTrafficRouting` un-pins the stable Service first, withdraws the
-    route to the canary Service next and deletes the canary Service last; the canary Service is
-    deleted only in a call that found (or left) no route to it; *done* means everything is restored. -/
-theorem finalising_order (c : TCtx) (n : Net) (m : Mem) :
+/-- **C04 / C10 (partial: outside known finding F-C05-1)** — `FinalisingTrafficRouting` un-pins the
+    stable Service first, withdraws the route to the canary Service next and deletes the canary
+    Service last; the canary Service is deleted only in a call that found (or left) no route to it;
+    *done* means everything is restored.  Hypothesis: the revision label key is known, i.e. the
+    controller could read the workload (see `finalising_order_full_FALSE`). -/
+theorem finalising_order_partial (c : TCtx) (n : Net) (m : Mem) (hk : c.hasRevKey = true) :
     finalisingOrder c n (finalisingTrafficRouting c n m) = true := by
   obtain ⟨w1, f1a, f1b, f1c, e1, s1⟩ := rs_spec c n m
   obtain ⟨w2, f2a, f2b, f2c, e2, s2, s2'⟩ := rg_spec c (restoreStableService c n m).net (restoreStableService c n m).mem
@@ -255,7 +257,7 @@ theorem finalising_order (c : TCtx) (n : Net) (m : Mem) :
           rw [f3b, f2b, f3c, f2c, f1c]
           cases hse : n.stableExists
           · simp
-          · simp [s1 href hse]
+          · simp [s1 href hse hk]
         by_cases d3 : r3.done = true
         · simp [d3, hsh, c3]
         · simp only [d3, Bool.false_eq_true, if_false]
@@ -266,6 +268,17 @@ theorem finalising_order (c : TCtx) (n : Net) (m : Mem) :
   · simp [href]
     decide
 
+
+/-- The full-strength statement is FALSE on the unchanged code: when the controller cannot read the
+    workload (it is gone, or its status is not yet consistent) the revision label key is empty,
+    `RestoreStableService` finds nothing to remove, and the whole sequence reports *done* while the
+    stable Service is still pinned to the old revision. -/
+theorem finalising_order_full_FALSE :
+    ∃ c n m, c.hasRevKey = false ∧ finalisingOrder c n (finalisingTrafficRouting c n m) = false := by
+  refine ⟨{ hasRef := true, grace := 0, weight := none, disableGen := false, stableRev := "v1", canaryRev := "v2",
+            lastUpdate := .none, hasRevKey := false },
+          { stableExists := true, stableSel := some "v1", canarySvc := some "v2", stableIngress := true, canaryIng := some 20 },
+          Mem.empty, rfl, by decide⟩
 
 /-! ### Fixed points (C07.iii) -/
 
@@ -316,7 +329,7 @@ theorem restore_done_nowrite (c : TCtx) (n : Net) (m : Mem) (hg : c.grace ≠ 0)
   · unfold restoreStableService runGrace
     by_cases h1 : c.hasRef = true
     · by_cases h2 : n.stableExists = true
-      · by_cases h3 : n.stableSel.getD "" = "" <;> simp [h1, h2, h3, hg]
+      · by_cases h3 : n.stableSel.getD "" = "" <;> by_cases h4 : c.hasRevKey = true <;> simp [h1, h2, h3, h4, hg]
       · simp [h1, h2]
     · simp [h1]
   · unfold restoreGateway runGrace finaliseGw
@@ -355,7 +368,7 @@ theorem call_frame (c : TCtx) (n : Net) (m : Mem) :
     unfold restoreStableService
     by_cases h1 : c.hasRef = true
     · by_cases h2 : n.stableExists = true
-      · by_cases h3 : n.stableSel.getD "" = "" <;> simp [h1, h2, h3]
+      · by_cases h3 : n.stableSel.getD "" = "" <;> by_cases h4 : c.hasRevKey = true <;> simp [h1, h2, h3, h4]
       · simp [h1, h2]
     · simp [h1]
   · simp [frame, b1, b2, b3]
